@@ -48,7 +48,7 @@ P = {
          'universe seen by the alpha model through its contract stub', '4 C19'),
 }
 
-NOT_YET = {'C09': 'PCM contracts are being written in this session; not claimed yet'}      # property -> reason (kept empty when every property has a check)
+NOT_YET = {}      # property -> reason (kept empty when every property has a check)
 
 
 def main():
